@@ -542,7 +542,7 @@ class Inliner:
             return None
         return None
 
-    def thread_returns(self, caller, boff, n, ret_slot, dest, cont):
+    def thread_returns(self, caller, boff, n, ret_slot, dest, cont, sites=None):
         """Jump threading for predicate helpers: when a spliced helper returns a constant (`true` / `false`, a known enum
         variant) on a branch and the caller immediately branches on the returned value (or applies `?` to it), that branch
         of the helper continues directly at the caller's corresponding target. Without this the caller's decision would
@@ -576,7 +576,7 @@ class Inliner:
             otherwise = tt['otherwise']
         else:
             return
-        for ri, chain, last, vals in self._return_sites(caller, boff, n, ret_slot, dest, cont):
+        for ri, chain, last, vals in (sites if sites is not None else self._return_sites(caller, boff, n, ret_slot, dest, cont)):
             if len(vals) != 1:
                 continue
             v = next(iter(vals))
@@ -629,6 +629,21 @@ class Inliner:
                     lt['targets'] = [[v_, (nxt if b_ == first_old else b_)] for v_, b_ in lt['targets']]
 
 
+    def _thread_new_blocks(self, body, base, dest, T):
+        """After a combinator was expanded: branches that assign a known variant to the result continue directly on the
+        matching side of a following `?` / `match` (same threading as for spliced helper returns)."""
+        sites = []
+        for bi in range(base, len(body['blocks'])):
+            nb = body['blocks'][bi]
+            if nb['term']['k'] == 'goto' and nb['term'].get('target') == T and nb['stmts'] and nb['stmts'][-1]['k'] == 'assign' and nb['stmts'][-1]['lhs']['l'] == dest:
+                rv = nb['stmts'][-1]['rv']
+                if rv['k'] == 'agg' and rv.get('agg') == 'adt' and isinstance(rv.get('vi'), int):
+                    sites.append((bi, [], None, {('var', rv.get('adt'), rv['vi'])}))
+                elif rv['k'] == 'use' and rv['op'].get('c') is not None and isinstance(rv['op']['c'].get('v'), int):
+                    sites.append((bi, [], None, {('int', rv['op']['c']['v'])}))
+        if sites:
+            self.thread_returns(body, 0, 0, None, dest, T, sites=sites)
+
     # ------------------------------------------------------------------ std combinators over new closures
     def expand_combinators(self, body, known_fps):
         """`flag.then(|| ..)`, `opt.map(|x| ..)`, `res.map_err(|e| ..)`, ... whose closure does not exist on the pinned tree
@@ -669,7 +684,7 @@ class Inliner:
             src = {k: t[k] for k in ('file', 'ln') if k in t}
             dest = t['dest']['l']
             T = t['target']
-            base = len(caller_blocks := body['blocks'])
+            base = len(body['blocks'])
             def newlocal(ty='?'):
                 body['locals'].append({'ty': ty})
                 return len(body['locals']) - 1
@@ -694,6 +709,7 @@ class Inliner:
                 bs = call_closure(fop, fv, [], lambda r: [assign(dest, _adt(OPT, 'Some', 1, [{'mv': {'l': r}}]))])
                 blk['term'] = dict({'k': 'switch', 'discr': args[0], 'targets': [[0, bn]], 'otherwise': bs}, **src)
                 n += 1
+                self._thread_new_blocks(body, base, dest, T)
                 continue
             d = newlocal('isize')
             v = newlocal('?')
@@ -729,6 +745,7 @@ class Inliner:
                 blk['stmts'].append(assign(d, {'k': 'discr', 'place': {'l': s_loc}, 'ty': OPT}))
                 blk['term'] = dict({'k': 'switch', 'discr': {'mv': {'l': d}}, 'targets': [[0, bn], [1, bs]], 'otherwise': bs}, **src)
                 n += 1
+                self._thread_new_blocks(body, base, dest, T)
             else:
                 ok_v = {'mv': _down(s_loc, RES, 'Ok', 0)}
                 err_v = {'mv': _down(s_loc, RES, 'Err', 1)}
@@ -754,6 +771,7 @@ class Inliner:
                 blk['stmts'].append(assign(d, {'k': 'discr', 'place': {'l': s_loc}, 'ty': RES}))
                 blk['term'] = dict({'k': 'switch', 'discr': {'mv': {'l': d}}, 'targets': [[0, bok], [1, berr]], 'otherwise': berr}, **src)
                 n += 1
+                self._thread_new_blocks(body, base, dest, T)
         return n
 
     # ------------------------------------------------------------------ driver per caller
